@@ -155,6 +155,9 @@ func (r *MetricRegistry) RegisterDistribution(
 		ID = strings.TrimPrefix(ID, ".")
 	}
 
+	r.mu.Lock()
+	defer r.mu.Unlock()
+
 	// only add once
 	if l, ok := r.registeredListeners[ID]; ok {
 		return l
@@ -182,6 +185,9 @@ func (r *MetricRegistry) RegisterTiming(
 		ID = strings.TrimPrefix(ID, ".")
 	}
 
+	r.mu.Lock()
+	defer r.mu.Unlock()
+
 	// only add once
 	if l, ok := r.registeredListeners[ID]; ok {
 		return l
@@ -207,6 +213,9 @@ func (r *MetricRegistry) RegisterCount(
 	if strings.HasPrefix(ID, ".") {
 		ID = strings.TrimPrefix(ID, ".")
 	}
+
+	r.mu.Lock()
+	defer r.mu.Unlock()
 
 	// only add once
 	if l, ok := r.registeredListeners[ID]; ok {
